@@ -61,6 +61,10 @@ CHECKS["C15"] = dict(level="exploration", design="4/C15", engine="sandbox-and-wa
     technique="property-based testing: generated trees x gitignore pattern sets x pattern sources x listing permutations, independent matcher cross-checked with pathspec",
     text="Pattern sets built from the tree's own names (bare names, dir/, globs, **/ forms, absolute paths, the input path) are delivered through -e, -s and the user configuration under permuted directory listings; a page must exist iff neither the file nor a directory above it matches, excluded directories must have no output, an excluded input no output at all.",
     note=SBX_NOTE)
+CHECKS["C12"] = dict(level="exploration", design="4/C12", engine="sandbox-and-walk-model",
+    technique="property-based testing: generated trees of generated modules x input spellings x prefix/separator/extension/header settings, line-view oracle",
+    text="Trees of generated modules (with/without '@module [name]' doccomments with arbitrary Unicode bodies, indented or not, directly followed by commands) are documented as directory input (absolute, relative, './x/', '.') or lone file input under drawn prefix sources, separators, extension options and header lists; on every page the title frame, the single leading module directive, the derivation of title/module name from prefix + relative path (base name for a lone file, no absolute component, pairwise distinct) and the '@module' override/body attribution are checked.",
+    note=SBX_NOTE + " Module contents come from the C01/C02 generator.")
 NOT_APPLICABLE = [
 ]
 
